@@ -407,7 +407,7 @@ def decode_rows(out, style):
         if plain == "":
             rows.append(("B",))
             continue
-        if plain == "--":
+        if plain == "--" and all(f is None or f.startswith("ansi") for f, _ in segs):
             rows.append(("SEP",))
             continue
         f0 = segs[0][0]
@@ -480,9 +480,9 @@ def gen_stream(rng, flavour=None, probe=None):
     npaths = rng.randint(1, 4)
     paths = []
     for _ in range(npaths):
-        for _try in range(20):
+        for _try in range(30):
             p = gen_path(rng)
-            if flavour in ("plain", "rgcolour") and "\t" in p:
+            if flavour in ("plain", "rgcolour") and rng.random() < 0.9 and fragment("context", p, "5" if numbered else None, "x") == "-":
                 continue
             if p not in paths[-1:]:
                 break
@@ -507,6 +507,12 @@ def gen_stream(rng, flavour=None, probe=None):
                 hits.append(None)
             code = gen_code(rng)
             num = n if numbered else None
+            if flavour in ("plain", "rgcolour") and rng.random() < 0.9:
+                # mostly stay inside what the theorems promise (ambiguous lines are exercised by the line-level ops)
+                for _try in range(12):
+                    if fragment(kind, path, None if num is None else str(num), code) != "-":
+                        break
+                    code = gen_code(rng, 4)
             h = dict(path=path, num=num, kind=kind, code=code, subs=None)
             if flavour == "json":
                 data = code.encode()
@@ -675,7 +681,7 @@ def run(ctx, rep):
             rep.corr_case("grep.patterns", unhxs(g) == texts[v], dict(variant=v, impl=unhxs(g)[:200], extracted=texts[v][:200]))
 
     # ---- 1. parsers: model vs regexes, plus the round-trip oracle
-    recs = [gen_record(rng) for _ in range(ctx.n(350, 30000))]
+    recs = [gen_record(rng) for _ in range(ctx.n(600, 30000))]
     cases = []  # (line, record|None, flavour)
     for r in recs:
         kind, path, digits, code = r
@@ -686,7 +692,7 @@ def run(ctx, rep):
             cases.append((mutate(rng, cases[-2][0]), None, "mutated"))
         if rng.random() < 0.3:
             cases.append((mutate(rng, cases[-2 if cases[-1][2] == "gitcolour" else -3][0] if False else fmt_git_colour(kind, path, digits, marked)), None, "mutated-colour"))
-    for _ in range(ctx.n(500, 40000)):
+    for _ in range(ctx.n(800, 40000)):
         cases.append((random_line(rng), None, "random"))
     cases = [c for c in cases if "\n" not in c[0]]
     impl_reqs, model_reqs, owner = [], [], []
@@ -866,7 +872,7 @@ def run(ctx, rep):
             rep.count("sections:invalid-span-panics")
 
     # ---- 4. streams through the real binary
-    streams = [gen_stream(rng) for _ in range(ctx.n(110, 5000))]
+    streams = [gen_stream(rng) for _ in range(ctx.n(160, 5000))]
     run_streams(ctx, rep, streams, mdl if have_model else None)
 
     # ---- 5. probes for the defect classes found while building this check (each is outside what
@@ -1116,13 +1122,13 @@ def run_probes(ctx, rep):
     for _ in range(ctx.n(3, 40)):
         code = rng.choice(["abc", "fn x", "é"])
         n = len(code.encode())
-        sub = (rng.randint(0, n), n + rng.randint(1, 5))
+        sub = (rng.choice([0, n]), n + rng.randint(1, 5))
         P.append(("json-span-out-of-range", probe_stream([rg_json("match", "a.rs", 1, code + "\n", [(sub[0], n)]).replace('"end":%d' % n, '"end":%d' % sub[1])], "none",
                                                           [dict(path="a.rs", num=1, kind="match", code=code, subs=[sub])], "json"), ["ripgrep", "classic"]))
     # (b) valid rg output: non-ASCII text before a TAB, span before the TAB -> shifted offset inside a character
     for _ in range(ctx.n(3, 40)):
-        k = rng.randint(1, 4)
-        code = "é" * 4 + "\t" * k + "foo"
+        k = rng.choice([1, 3])        # shift 7k is odd and < 8k: inside one of the 4k two-byte characters
+        code = "é" * (4 * k) + "\t" * k + "foo"
         P.append(("json-tab-shift-char-boundary", probe_stream([rg_json("match", "a.rs", 3, code + "\n", [(0, 2)])], "none",
                                                                 [dict(path="a.rs", num=3, kind="match", code=code, subs=[(0, 2)])], "json"), ["ripgrep", "classic"]))
     # (c) line number 0
@@ -1158,8 +1164,9 @@ def run_probes(ctx, rep):
 def judge_probe(rep, name, st, style, rc, out, err, rows, replay):
     """Same oracle as judge_stream, with the failure named after the probed input class."""
     if rc != 0:
-        sig = classify_panic(err) if rc == 101 else f"exit:{rc}"
-        rep.violation(sig, f"[{name}] delta exits {rc}: {err.strip()[-300:]}", replay)
+        sig = (classify_panic(err) if rc == 101 else f"exit:{rc}") + "@" + name
+        site, msg = panic_site(err)
+        rep.violation(sig, f"[{name}] delta exits {rc}: panicked at {site}: {msg}", replay)
         return
     if name in ("json-span-out-of-range", "line-number-zero", "line-number-not-canonical"):
         # no promise about what is shown for malformed input, only that it is shown at all
